@@ -946,5 +946,29 @@ Definition src_set_bit_U64 : list effect :=
 Definition src_set_bit_U8 : list effect :=
   [ (Store "bits" (ECast U8 (EBin OOr I32 (EBin OAnd I32 (ECast I32 (EVar "bits")) (ENot I32 (EShl I32 (ECast I32 (ECast U8 (ELit (1)))) (ECast I32 (EVar "n"))))) (EShl I32 (ECast I32 (ECast U8 (EVar "b"))) (ECast I32 (EVar "n")))))) ].
 
+Definition src_set_eq_U16 : list effect :=
+  [ (Return (ECmp CEq (ECast I32 (EVar "lhs.bits")) (ECast I32 (EVar "rhs.bits")))) ].
+
+Definition src_set_eq_U32 : list effect :=
+  [ (Return (ECmp CEq (EVar "lhs.bits") (EVar "rhs.bits"))) ].
+
+Definition src_set_eq_U64 : list effect :=
+  [ (Return (ECmp CEq (EVar "lhs.bits") (EVar "rhs.bits"))) ].
+
+Definition src_set_eq_U8 : list effect :=
+  [ (Return (ECmp CEq (ECast I32 (EVar "lhs.bits")) (ECast I32 (EVar "rhs.bits")))) ].
+
+Definition src_set_ne_U16 : list effect :=
+  [ (Return (ECmp CNe (ECast I32 (EVar "lhs.bits")) (ECast I32 (EVar "rhs.bits")))) ].
+
+Definition src_set_ne_U32 : list effect :=
+  [ (Return (ECmp CNe (EVar "lhs.bits") (EVar "rhs.bits"))) ].
+
+Definition src_set_ne_U64 : list effect :=
+  [ (Return (ECmp CNe (EVar "lhs.bits") (EVar "rhs.bits"))) ].
+
+Definition src_set_ne_U8 : list effect :=
+  [ (Return (ECmp CNe (ECast I32 (EVar "lhs.bits")) (ECast I32 (EVar "rhs.bits")))) ].
+
 Definition src_size_check_macro : list effect :=
   [ (Assert (ECond (ECond (EToBool (EVar "begin")) (ECmp CLe (EVar "begin") (EVar "end")) (ELit (0))) (ECond (ECmp CLe (EVar "size") (ECast U64 (EBin OSub I64 (EVar "end") (EVar "begin")))) (ECmp CLe (EVar "offset") (EBin OSub U64 (ECast U64 (EBin OSub I64 (EVar "end") (EVar "begin"))) (EVar "size"))) (ELit (0))) (ELit (0)))) ].
